@@ -103,6 +103,41 @@ theorem htmlRule_pos {st st' : IState} {silent : Bool} {n : Nat}
     injection ho with ho
     omega
 
+/-- **the html member.**  Called as the tokenizer calls it (window non-empty, on boundaries,
+    well-formed table) with `link_level` strictly inside `i32`, the rule does not panic, and when it fires
+    it consumes at least one byte, stays inside `pos_max` and ends on a character boundary. -/
+theorem htmlRule_fires {st : IState} (hi : InlineInv st) (silent : Bool)
+    (hll : Html.i32Min < st.linkLevel ∧ st.linkLevel < Html.i32Max) :
+    ∃ o st', htmlRule st silent = .ok (o, st') ∧ Advances st o := by
+  obtain ⟨o, s1, nd, h, hadv⟩ := Html.inline_rule_progress_html hi silent hll
+  unfold htmlRule
+  rw [h]
+  cases nd with
+  | none => exact ⟨_, _, rfl, hadv⟩
+  | some n => exact ⟨_, _, rfl, hadv⟩
+
+/-- the extent of a match, from the window alone: at least one byte, inside `pos_max`, on a boundary -/
+theorem htmlRule_advances {st st' : IState} {silent : Bool} {o : Option Nat}
+    (h : htmlRule st silent = .ok (o, st')) : Advances st o := by
+  obtain ⟨s1, nd, he, _⟩ := htmlRule_ok h
+  obtain ⟨c, rest, hw, hcase⟩ := Html.htmlInlineRule_ok he
+  rcases hcase with ⟨rfl, _⟩ | ⟨r, _, _, hr, ho, _⟩
+  · intro len hl; cases hl
+  · obtain ⟨m, hm⟩ := Html.tagRest_spec hr
+    have hsl := window_eq hw
+    have hb : byteLen (c :: rest) = byteLen ('<' :: m) + byteLen r := by
+      rw [hm, ← C05.byteLen_append]
+    have h1 : byteLen ('<' :: m) = 1 + byteLen m := by simp [byteLen, Html.byteLen_lt_one]
+    have h2 := (slice_boundaries hsl).2.2
+    intro len hl
+    rw [ho] at hl
+    injection hl with hl
+    subst hl
+    refine ⟨by omega, by omega, ?_⟩
+    have : byteLen (c :: rest) - byteLen r = byteLen ('<' :: m) := by omega
+    rw [this]
+    exact boundary_in_slice (by rw [← hm]; exact hsl)
+
 /-! ## 2. conservativity: a chain without `.html` -/
 
 theorem firstRuleG_map {ι κ : Type} (f : κ → ι) (run : ι → IState → RuleRes) :
